@@ -496,7 +496,9 @@ func (j *c18Judge) lane(l *c18Lane) {
 					continue
 				}
 			}
-			if m := c18DigestTagRe.FindStringSubmatch(u); m != nil && (e.has("digestTags") || e.has("referrers")) && tgtPost != nil && tgtPost.Manifests[m[1]+":"+m[2]] {
+			// oracle caution: digest tags (sha256-<hex><suffix>, switch digestTags) and referrers fallback tags
+			// (exactly sha256-<hex>, switch referrers) of content that is at the target are not "untouched" violations
+			if m := c18DigestTagRe.FindStringSubmatch(u); m != nil && (e.has("digestTags") || (e.has("referrers") && m[3] == "")) && tgtPost != nil && tgtPost.Manifests[m[1]+":"+m[2]] {
 				if sd, isSrc := srcSnap.Tags[u]; !isSrc || sd == postD {
 					j.count("tolerated.digest_or_fallback_tag_written", 1)
 					continue
